@@ -5,7 +5,7 @@
 From stdpp Require Import gmap.
 From Coq Require Import NArith ZArith Lia.
 From SkV Require Import Bytes Codec Ledger ChainState Pow Validate ChainDefs ValidProofs MiscProofs.
-From SkV Require Gen_Params.
+From SkV Require Gen_Params PositionProofs.
 
 Theorem C02_rules : forall sha scrypt blake verify P s b now s',
   add_block sha scrypt blake verify P s b now = Ok s' -> FV P b ->
@@ -23,6 +23,17 @@ Theorem C02_step : forall sha scrypt blake verify P s b now s',
     (utxo_total u' <= utxo_total u + get_block_subsidy P (b_height b))%N.
 Proof. exact block_step_total. Qed.
 
+(* positioned above the horizon, whatever height is declared *)
+Theorem C02_step_by_position : forall sha scrypt blake verify P s b now s',
+  add_block sha scrypt blake verify P s b now = Ok s' -> PositionProofs.FVpos P s b ->
+  exists u u', cs_utxo s !! b_prev b = Some u /\ cs_utxo s' !! block_id sha b = Some u' /\
+    (utxo_total u' <= utxo_total u + get_block_subsidy P (b_height b))%N.
+Proof.
+  intros sha scrypt blake verify P s b now s' H Hp.
+  exact (block_step_total sha scrypt blake verify P s b now s' H
+           (PositionProofs.accepted_position_is_FV sha scrypt blake verify P s b now s' H Hp)).
+Qed.
+
 Theorem C02_supply : forall sha scrypt blake verify P s0 s,
   SupplyInv P s0 -> validated_from sha scrypt blake verify P s0 s -> SupplyInv P s.
 Proof. exact supply_bound. Qed.
@@ -38,6 +49,7 @@ Theorem C02_max : forall P, Z.of_N (p_interval P) = Gen_Params.SUBSIDY_HALVING_I
 Proof. exact supply_never_exceeds_max_reachable. Qed.
 
 Print Assumptions C02_rules.
+Print Assumptions C02_step_by_position.
 Print Assumptions C02_max.
 Print Assumptions C02_step.
 Print Assumptions C02_supply.
